@@ -190,9 +190,7 @@ Proof.
     destruct (Hx x E) as (_ & xo & Hxo & _ & Hrow & Hname & Hnameo & Hshape). assert (xo = xo') by congruence. subst xo.
     split.
     { destruct (tget (p_tree s) x) as [o0|] eqn:E0; [|rewrite (Hname eq_refl); reflexivity].
-      rewrite (Hnameo o0 eq_refl). apply (HNF x o0 E0).
-      destruct (N.eq_dec (o_opcode o0) opFreed) as [Ef|Ef]; [exact Ef|exfalso].
-      apply Hnx. apply (R_live_glive _ _ HR). exists o0. split; [exact E0|exact Ef]. }
+      rewrite (Hnameo o0 eq_refl). reflexivity. }
     destruct scope_row as (Hsi & Hsrow & Hsd & Hsn & Hsim & Hot).
     unfold rowis in Hrow. rewrite Hop', Hsi in Hrow. injection Hrow as Hrow.
     split; [intros op fl af E0; rewrite <- Hrow, Hsrow in E0; injection E0 as _ <- _; exact Hsn|].
